@@ -252,11 +252,67 @@ impl<'p> Interp<'p> {
                 Ok(Val::unit())
             }
             StmtKind::Assign(n, accs, op, e) => {
-                // Garble's documented order: accessor indices are evaluated and bounds-checked,
-                // then the value. Rust evaluates the value first. Where both an index is out of
-                // range and the value fails, either is accepted (ambiguity point).
+                // Plain assignment: the value is evaluated first (its effects - possibly on the
+                // assigned variable itself - are visible to the place), then the accessor indices
+                // are evaluated and bounds-checked. Compound assignment `p op= e` reads the place
+                // first (indices, bounds check), then evaluates e. Where both the place and the
+                // value fail, either failure is accepted (ambiguity point).
                 let mut idxs: Vec<Option<usize>> = vec![];
                 let mut oob = false;
+                let pre: Option<Result<Val, (Reason, usize)>> = if op.is_none() {
+                    Some(match self.expr(e, env) {
+                        Ok(v) => Ok(v),
+                        Err(Stop::Panic(r, id)) => Err((r, id)),
+                        Err(other) => return Err(other),
+                    })
+                } else {
+                    None
+                };
+                if let Some(Err((r, id))) = pre {
+                    // the value failed: does the place fail too?
+                    let mut place_fails = false;
+                    if let Ok(mut cur) = self.lookup(env, n) {
+                        for a in accs {
+                            match a {
+                                Acc::Index(ie) => match self.expr(ie, env) {
+                                    Ok(iv) => {
+                                        let i = iv.as_int() as usize;
+                                        match &cur {
+                                            Val::Arr(elems) if i < elems.len() => {
+                                                let nxt = elems[i].clone();
+                                                cur = nxt;
+                                            }
+                                            _ => {
+                                                place_fails = true;
+                                                break;
+                                            }
+                                        }
+                                    }
+                                    Err(Stop::Panic(..)) => {
+                                        place_fails = true;
+                                        break;
+                                    }
+                                    Err(other) => return Err(other),
+                                },
+                                Acc::Tup(i) => {
+                                    let Val::Tup(fs) = &cur else { return stuck("tuple access on non-tuple") };
+                                    let nxt = fs[*i].clone();
+                                    cur = nxt;
+                                }
+                                Acc::Field(f) => {
+                                    let Val::Struct(_, fs) = &cur else { return stuck("field access on non-struct") };
+                                    let nxt = fs.iter().find(|(g, _)| g == f).ok_or(Stop::Stuck("no field".into()))?.1.clone();
+                                    cur = nxt;
+                                }
+                            }
+                        }
+                    }
+                    if place_fails && self.choose() {
+                        // (only out-of-range indices are modelled as the alternative outcome)
+                        return Err(Stop::Panic(Reason::OutOfBounds, s.id));
+                    }
+                    return Err(Stop::Panic(r, id));
+                }
                 {
                     // walk the accessors over the current value to evaluate indices
                     let mut cur = self.lookup(env, n)?;
@@ -290,11 +346,15 @@ impl<'p> Interp<'p> {
                         }
                     }
                     if oob {
-                        // the value expression would still be evaluated by Rust first
-                        let value_fails = match self.expr(e, env) {
-                            Ok(_) => None,
-                            Err(Stop::Panic(r, id)) => Some((r, id)),
-                            Err(other) => return Err(other),
+                        // compound assignment: the value expression might fail as well
+                        let value_fails = if pre.is_some() {
+                            None
+                        } else {
+                            match self.expr(e, env) {
+                                Ok(_) => None,
+                                Err(Stop::Panic(r, id)) => Some((r, id)),
+                                Err(other) => return Err(other),
+                            }
                         };
                         if let Some((r, id)) = value_fails {
                             if self.choose() {
@@ -304,7 +364,10 @@ impl<'p> Interp<'p> {
                         return Err(Stop::Panic(Reason::OutOfBounds, s.id));
                     }
                     // in range
-                    let rhs = self.expr(e, env)?;
+                    let rhs = match pre {
+                        Some(Ok(v)) => v,
+                        _ => self.expr(e, env)?,
+                    };
                     let newv = match op {
                         None => rhs,
                         Some(op) => self.binop(*op, &cur, &rhs, s.id)?,
